@@ -243,5 +243,44 @@ pub const fn div_rem_vartime<const RHS_LIMBS: usize>(
 }
 }
 //@@ end
+//@@ fn src/uint/div.rs | impl<const LIMBS: usize> Uint<LIMBS> | rem_vartime | stub | props C02 C11 C15
+impl<const LIMBS: usize> Uint<LIMBS> {
+#[verifier::external_body]
+pub const fn rem_vartime(&self, rhs: &NonZero<Self>) -> (ret__: Self)
+//@+
+    requires 1 <= LIMBS < 0x400_0000, rhs.0.v() != 0
+    ensures ret__.v() == self.v() % rhs.0.v()
+//@-
+{
+    unimplemented!()
+}
+}
+//@@ end
+//@@ fn src/uint/div.rs | impl<const LIMBS: usize> Uint<LIMBS> | rem_wide_vartime | stub | props C02 C11
+impl<const LIMBS: usize> Uint<LIMBS> {
+#[verifier::external_body]
+pub const fn rem_wide_vartime(lower_upper: (Self, Self), rhs: &NonZero<Self>) -> (ret__: Self)
+//@+
+    requires 1 <= LIMBS < 0x400_0000, rhs.0.v() != 0
+    ensures ret__.v() == (lower_upper.0.v() + lower_upper.1.v() * bp(LIMBS as nat)) % rhs.0.v()
+//@-
+{
+    unimplemented!()
+}
+}
+//@@ end
+//@@ fn src/uint/div.rs | impl<const LIMBS: usize> Uint<LIMBS> | rem2k_vartime | stub | props C02 C11
+impl<const LIMBS: usize> Uint<LIMBS> {
+#[verifier::external_body]
+pub const fn rem2k_vartime(&self, k: u32) -> (ret__: Self)
+//@+
+    requires 1 <= LIMBS < 0x400_0000
+    ensures ret__.v() == self.v() % p2(k as nat)
+//@-
+{
+    unimplemented!()
+}
+}
+//@@ end
 
 } // verus!
